@@ -156,6 +156,15 @@ int fp_crt(fp_t c, const fp_t a) {
 			bn_div_dig(e, e, 3);
 			fp_exp(t0, a, e);
 
+			/* Use a before c is written, as they can be the same element. */
+			fp_sqr(t1, t0);
+			fp_mul(t1, t1, t0);
+			fp_mul(t1, t1, a);
+			if (rem == 2) {
+				fp_mul(t0, t0, a);
+				fp_mul(t1, t1, a);
+			}
+
 			/* Recover 3^f-root of unity, and continue algorithm. */
 			fp_copy(t3, (const dig_t *)fp_prime_get_crt());
 
@@ -163,13 +172,6 @@ int fp_crt(fp_t c, const fp_t a) {
 			for (int i = 0; i < f - 1; i++) {
 				fp_sqr(t4, c);
 				fp_mul(c, c, t4);
-			}
-			fp_sqr(t1, t0);
-			fp_mul(t1, t1, t0);
-			fp_mul(t1, t1, a);
-			if (rem == 2) {
-				fp_mul(t0, t0, a);
-				fp_mul(t1, t1, a);
 			}
 			fp_set_dig(t5, 1);
 			for (int j = f; j > 1; j--) {
